@@ -25,8 +25,8 @@ func checkC14(c *Check) {
 	}
 	sums := map[*ssa.Function]sum{}
 	for _, fn := range l.pkgFuncs("provider/cluster") {
-		if fn.Signature.Recv() == nil || !strings.HasSuffix(fn.Signature.Recv().Type().String(), "deploymentManager") || fn == run {
-			continue
+		if fn.Signature.Recv() == nil || !strings.HasSuffix(fn.Signature.Recv().Type().String(), "deploymentManager") || fn == run || isNewFunc(fn) {
+			continue // new helpers of the loop are interpreted in place by the abstract interpreter
 		}
 		var sv string
 		eachInstr(fn, func(i ssa.Instruction) {
@@ -255,7 +255,7 @@ func checkC14(c *Check) {
 							root = root.Parent()
 						}
 						_, isHelper := sums[root]
-						c.Ob("R5", "manager state written in "+fnName(fn), st.Pos(), root == run || isHelper || root == ctor, "the state machine's variable is modified outside the loop and its helpers")
+						c.Ob("R5", "manager state written in "+fnName(fn), st.Pos(), inCodeOf(run, root) || isHelper || root == ctor, "the state machine's variable is modified outside the loop and its helpers")
 					}
 				}
 			}
@@ -550,6 +550,17 @@ func (c *Check) hostnameNormalisation() {
 		why := "doRequest has no recording store or no refusing reply"
 		for _, u := range updates {
 			for _, r := range refusals {
+				// the value sent is known to be nil wherever the recording store executes: not a refusal
+				knownNil := false
+				sv := r.(*ssa.Send).X
+				for _, a := range factsAt(u.Block()) {
+					if a.Op == "eq" && a.Y != nil && isNilConst(a.Y) && (a.X == sv || Sym(a.X) == Sym(sv)) {
+						knownNil = true
+					}
+				}
+				if knownNil {
+					continue
+				}
 				if reachableFrom(u, r) {
 					ok = false
 					why = "a refusal at " + l.Pos(r.Pos()) + " can follow the recording of an earlier name of the same request: those names stay taken although the request failed and nobody will release them"
